@@ -18,6 +18,7 @@ ASSUMPTIONS = ["inputs the docstrings exclude are not generated (identical segme
                "lines, arcs on one ellipse with overlapping spans)",
                "an exception is tolerated (counted) for general arc-arc pairs; for other pairs only TypeError/AttributeError/"
                "IndexError/NameError count as violations, any other exception is 'no output' (the property speaks about returned pairs)"]
+RULE += ' Also: Pairs are also placed 1e3..1e6 sizes from the origin; exactly axis-parallel lines; explicit tol argument; paths with sweep-twin arcs, end-touching configurations and justonemode=True.'   # added after the seeded-change rounds (DESIGN.md section 10)
 CONFIGS = ['scipy']
 BUDGET = {'quick': 2400, 'thorough': 100000}
 REQUIRED = ['pair:LL', 'pair:LQ', 'pair:QC', 'pair:CC', 'pair:AL', 'pair:LA', 'pair:AC', 'pair:AA', 'cfg:crossing', 'cfg:tangent',
